@@ -37,6 +37,17 @@ def run_ops(t, view, ops, out, prefix):
             out.append('%d.%s=%s' % (k, prefix, status(lambda: to_val(t, view))))
         elif o == 'elem':
             out.append('%d.%s=%s' % (k, prefix, status(lambda: read_elem(t, view, int(op[1])))))
+        elif o == 'slice':
+            def sl():
+                # an in-range slice: both bounds are reduced modulo the current length
+                ln = len(view)
+                a = int(op[1]) % (ln + 1)
+                b = a + int(op[2]) % (ln - a + 1)
+                items = view[a:b]
+                if kind(t) in ('bv', 'bl'):
+                    return '%d:%d:' % (a, b) + ','.join('1' if x else '0' for x in items)
+                return '%d:%d:' % (a, b) + ','.join(to_val(t[1], x) for x in items)
+            out.append('%d.%s=%s' % (k, prefix, status(sl)))
         elif o == 'len':
             out.append('%d.%s=%s' % (k, prefix, status(lambda: len(view))))
         elif o == 'bytes':
